@@ -1333,9 +1333,14 @@ def r3_set(a):
         raise AnalysisError("tdma_schedule_set(): stored callback is not copied from a set entry -- unclassifiable")
     ENT = cbv[1][1]                                # lvalue of the set entry being copied
     pset = ("p", 1, base.params[1].get("name"))
-    if not (ENT[0] == "deref" and ENT[1][0] == "padd" and ENT[1][1] == pset):
-        raise AnalysisError("tdma_schedule_set(): copied entry %s is not item_set[index] -- unclassifiable" % show(ENT))
-    IDX = ENT[1][2]
+    # the entry is item_set[index] (index a loop variable) or *ptr (ptr walking from item_set)
+    if ENT[0] == "deref" and ENT[1][0] == "padd" and ENT[1][1] == pset:
+        IDX, walk_ptr = ENT[1][2], False
+    elif ENT[0] == "deref" and base.is_phi(ENT[1]):
+        IDX, walk_ptr = ENT[1], True
+    else:
+        raise AnalysisError("tdma_schedule_set(): copied entry %s is neither item_set[index] nor a pointer walking the set "
+                            "-- unclassifiable" % show(ENT))
     for f in ("cb", "p1", "p2", "prio"):
         got = fields.get(f)
         good = got is not None and got[0] == "ld" and got[1] == ("fld", ENT, f)
@@ -1373,13 +1378,19 @@ def r3_set(a):
         raise AnalysisError("tdma_schedule_set(): item is not stored through sched->bucket[...] -- unclassifiable")
     S, BN = B[1][1], B[2]
     if not fn.is_phi(IDX):
-        raise AnalysisError("tdma_schedule_set(): entry index %s is not a loop variable -- unclassifiable" % show(IDX))
+        raise AnalysisError("tdma_schedule_set(): entry position %s is not a loop variable -- unclassifiable" % show(IDX))
     h = phi_node(fn, IDX)
     g = fn.g
     # (b) entries are visited in order
     bad = []
     for (p, l, vals, inside) in fn.leaves([key_by_name(fn, IDX[2])], h):
         v = vals[0]
+        if walk_ptr:
+            if inside and v != ("padd", IDX, C1):
+                bad.append("loop continues with entry pointer %s" % show(v))
+            if not inside and v != pset:
+                bad.append("starts at %s" % show(v))
+            continue
         if inside and X.sub(v, IDX) != C1:
             bad.append("loop continues with index %s" % show(v))
         if not inside and v != C0:
@@ -1653,6 +1664,52 @@ def r5_sort(a):
     at = cmps[0]
     ia, ib = item_of(at[1])[0], item_of(at[2])[0]
 
+    # the comparison node and the version of the order sequence it sees
+    cnode = None
+    for (c, l) in fn.guard_edges(e1["node"]):
+        if at in fn.atoms(c, l):
+            cnode = c
+    if cnode is None:
+        raise AnalysisError("%s(): comparison node of the exchange not found" % name)
+    grp = ("pp", qi)
+    vcur = fn.ver(grp, fn.inn[cnode.id])
+    e_el = e1 if e1["lv"] == EL else e2
+    last = e2 if g.dominates(e1["node"], e2["node"]) else e1
+    vafter = fn.ver(grp, fn.out[last["node"].id])
+
+    def item_at(poslv, version):
+        return ("idx", ("fld", BK, "item"), ("ld", poslv, version))
+
+    def current(it, poslv):
+        """Does lvalue `it` denote bucket->item[seq[pos]] for the sequence as it is
+        at the comparison?  True / False (can be stale) / None (unclassifiable)."""
+        if is_pos(it, poslv):
+            return it[2][2] == vcur
+        if it[0] == "deref" and fn.is_phi(it[1]):
+            P = it[1]
+            h = phi_node(fn, P)
+            vh = fn.ver(grp, fn.inn[h.id])
+            if vh != vcur:
+                return None
+            keys = [key_by_name(fn, P[2]), ("M", grp), ("W",), ("W2",)]
+            verdict = True
+            for (p, l, vals, inside) in fn.leaves(keys, h):
+                pv = vals[0]
+                vleaf = ("ver", grp, vals[1], vals[2], vals[3])
+                if pv == P:
+                    ok = vleaf == vh                       # neither pointer nor sequence changed
+                elif pv == ("addr", item_at(poslv, vleaf)):
+                    ok = True                              # re-read from the sequence
+                elif pv[0] == "addr" and pv[1][0] == "idx" and pv[1][1] == ("fld", BK, "item"):
+                    # updated together with the exchange: seq[pos] now holds the value stored by it
+                    ok = poslv == EL and vleaf == vafter and e_el["val"][2] == vh and \
+                        pv == ("addr", ("idx", ("fld", BK, "item"), e_el["val"]))
+                else:
+                    return None
+                verdict = verdict and ok
+            return verdict
+        return None
+
     def role(it):
         if is_pos(it, LL):
             return "later"
@@ -1669,6 +1726,19 @@ def r5_sort(a):
     if {ra, rb} != {"earlier", "later"}:
         raise AnalysisError("%s(): compared elements are not the earlier (current) and the later sequence position -- "
                             "no longer selection-sort shape" % name)
+    ie, il = (ia, ib) if ra == "earlier" else (ib, ia)
+    ce, cl_ = current(ie, EL), current(il, LL)
+    if ce is None or cl_ is None:
+        raise AnalysisError("%s(): cannot relate the compared elements to the current order sequence -- "
+                            "no longer selection-sort shape" % name)
+    a.ob(R, name, "at every comparison the earlier operand is the element currently referenced by seq[earlier position] "
+         "(re-read, or updated together with the exchange)", "bucket->item[seq[earlier]] of the current sequence",
+         "bucket->item[seq[earlier]] of the current sequence" if ce else
+         "element cached before an exchange of the same outer iteration (can be stale)", ce, cnode.ast)
+    a.ob(R, name, "at every comparison the later operand is the element currently referenced by seq[later position]",
+         "bucket->item[seq[later]] of the current sequence",
+         "bucket->item[seq[later]] of the current sequence" if cl_ else "element read before a later write of the sequence (can be stale)",
+         cl_, cnode.ast)
     # atom: (prio[a] < prio[b]) has truth value at[3]
     if ra == "later":
         good = at[3]              # later < earlier  -> exchange
